@@ -551,6 +551,9 @@ def _exec(ctx, case):
         ctx.count("twins_measured_under_custom_column_names")
         if r:
             raise Mismatch("custom-column-names", f"morphometrics of the moved neuron: {r}")
+        r = G.same_under_ambient(lambda: _pose_bundle(tree2), pick=case["mseed"] // 4)
+        if r:
+            raise Mismatch("ambient-state", f"morphometrics of the moved neuron: {r}")
     case.pop("_radii_B", None)
 
 
